@@ -426,7 +426,7 @@ def ksa(ctx, rep):
         ok1 = util.is_call(it1, "std::iter::Iterator::enumerate") and util.is_call(it1[2][0], "core::slice::<impl [T]>::iter_mut")
         if ok1:
             im = se.term_info.get(it1[2][0][3][1], {})
-            la = im.get("locargs", (("?",),))[0]
+            la = (im.get("locargs") or (("?",),))[0]
             ok1 = la[0] == "ref" and la[1] == table_loc
         cl0 = init[0]["locargs"][1]
         c0 = ctx.flat.run(cl0[2]) if cl0[0] == "agg" and cl0[1] == "closure" else None
